@@ -136,7 +136,7 @@ def check_case(ctx, case):
                 continue
             rn_ = R.NORMAL.evaluate(rs, p)
             if rn_.status == "def" and C.decisive_width(rn_.root.iv, 1e-5):
-                rx = R.EXACT_WIDE.evaluate(rs, p)
+                rx = R.NORMAL_WIDE.evaluate(rs, p)
                 sym_enc[key] = (rn_.root.iv, rx.root.iv if rx.status == "def" else None, rs)
         ctx.count("points_with_numbers_compared")
         for rn, o in outs.items():
